@@ -51,6 +51,14 @@ pub enum N {
     Cs {
         var: u32,
         body: Vec<N>,
+        /// 0 `v=$(body)`, the status is the body's; 1 two substitutions in one
+        /// word of a command, `echo "v=[$(body)]$(rc 9)"`: two children, both
+        /// reaped, the status is the command's; 2 the substitution's shell
+        /// leaves an asynchronous grandchild behind that still holds the pipe,
+        /// `v=$(body; { nap 3; echo late; } &)`: the text ends when the
+        /// grandchild is done
+        #[serde(default)]
+        form: u8,
     },
     Bg {
         id: u32,
@@ -232,9 +240,11 @@ impl Gen<'_> {
                     let body = self.block(depth + 1, 3, false);
                     self.outer_jobs = saved;
                     self.next_var += 1;
+                    let form = *self.rng.pick(&[0u8, 0, 0, 1, 2]);
                     out.push(N::Cs {
                         var: self.next_var,
                         body,
+                        form,
                     });
                     out.push(N::Qm);
                 }
@@ -518,7 +528,16 @@ fn render(n: &N, out: &mut String, _sep: &str) {
             }
             out.push(')');
         }
-        N::Cs { var, body } => {
+        N::Cs { var, body, form: 1 } => {
+            out.push_str(&format!("echo \"v{var}=[$( {})]$(rc 9)\"", inline(body)));
+        }
+        N::Cs { var, body, form: 2 } => {
+            out.push_str(&format!(
+                "v{var}=$( {}{{ nap 3; echo late; }} & ); s=$?; echo \"v{var}=[$v{var}]\"; rc $s",
+                inline(body)
+            ));
+        }
+        N::Cs { var, body, .. } => {
             out.push_str(&format!(
                 "v{var}=$( {}); s=$?; echo \"v{var}=[$v{var}]\"; rc $s",
                 inline(body)
@@ -704,9 +723,16 @@ fn eval(n: &N, cx: &mut Ctx) {
             cx.out.extend(c.out);
             cx.status = exit.map_or(c.status, |e| e as u32);
         }
-        N::Cs { var, body } => {
+        N::Cs { var, body, form } => {
             let mut c = cx.child();
             eval_block(body, &mut c);
+            if *form == 2 {
+                c.out.push("late".into());
+                c.status = 0;
+            }
+            if *form == 1 {
+                c.status = 0;
+            }
             let mut text = c.out.join("\n");
             while text.ends_with('\n') {
                 text.pop();
@@ -1014,9 +1040,9 @@ fn variants(nodes: &[N]) -> Vec<Vec<N>> {
                     exit: *exit,
                 })
                 .collect(),
-            N::Cs { var, body } => variants(body)
+            N::Cs { var, body, form } => variants(body)
                 .into_iter()
-                .map(|b| N::Cs { var: *var, body: b })
+                .map(|b| N::Cs { var: *var, body: b, form: *form })
                 .collect(),
             N::Bg { id, body, exit } => variants(body)
                 .into_iter()
@@ -1396,7 +1422,7 @@ impl Prop for C13 {
         "exploration"
     }
     fn rule(&self) -> String {
-        "Seeded generator of race-free-by-construction shell programs (pipelines of 2-4 stages with read/relay/count stages, ( ), $( ), `{ ...; exit N; } >file &` jobs with $! capture, wait PID / wait / wait UNKNOWN, if/for/functions, pipefail on/off, nesting <= 3); expectations from a reference interpreter of the generator AST. Each program runs whole on the simulated OS under the FIFO baseline plus seeded schedules (random, PCT, round-robin, FIFO-with-deviations) with preemption at kernel-call boundaries and short reads/writes. A run counts as distinct non-trivial when it had >= 2 processes, >= 1 scheduling point with >= 2 ready tasks (or >= 1 fired fault) and its (program hash, schedule hash, fault count) triple was not seen before (hash set). Engine (k): 20/60 seeded histories per case on the simulated kernel's process table (fork, exit, setpgid, kill to a process or a process group incl. STOP/CONT/KILL/0, sigmask, sigaction, wait) against a POSIX life-cycle model. Added configurations: programs in which the main shell traps USR1 and foreground children send it, or traps TERM/HUP and kills young jobs with them; children waiting for the parent's jobs (127); orphans; every program ends by writing the shell's descriptor table to a file (must be the initial one). Fault runs with a relaxed oracle (termination, true wait statuses, nothing runs after its death, no descriptor left behind): fork fails with EAGAIN at a seeded position; a descriptor allocation of any process fails with EMFILE at a seeded position; children are killed with SIGKILL from outside at seeded steps.".into()
+        "Seeded generator of race-free-by-construction shell programs (pipelines of 2-4 stages with read/relay/count stages, ( ), $( ) (as an assignment, twice in one word of a command, and with an asynchronous grandchild that keeps the pipe open after the substitution's shell has left), `{ ...; exit N; } >file &` jobs with $! capture, wait PID / wait / wait UNKNOWN, if/for/functions, pipefail on/off, nesting <= 3); expectations from a reference interpreter of the generator AST. Each program runs whole on the simulated OS under the FIFO baseline plus seeded schedules (random, PCT, round-robin, FIFO-with-deviations) with preemption at kernel-call boundaries and short reads/writes. A run counts as distinct non-trivial when it had >= 2 processes, >= 1 scheduling point with >= 2 ready tasks (or >= 1 fired fault) and its (program hash, schedule hash, fault count) triple was not seen before (hash set). Engine (k): 20/60 seeded histories per case on the simulated kernel's process table (fork, exit, setpgid, kill to a process or a process group incl. STOP/CONT/KILL/0, sigmask, sigaction, wait) against a POSIX life-cycle model. Added configurations: programs in which the main shell traps USR1 and foreground children send it, or traps TERM/HUP and kills young jobs with them; children waiting for the parent's jobs (127); orphans; every program ends by writing the shell's descriptor table to a file (must be the initial one). Fault runs with a relaxed oracle (termination, true wait statuses, nothing runs after its death, no descriptor left behind): fork fails with EAGAIN at a seeded position; a descriptor allocation of any process fails with EMFILE at a seeded position; children are killed with SIGKILL from outside at seeded steps.".into()
     }
     fn assumptions(&self) -> Vec<String> {
         vec![
